@@ -517,6 +517,8 @@ def r13(tree, rep):
 
 
 def run(tree, rep, tier):
+    from .. import round9 as _r9
+    _r9.delayed_attempts_tracked(tree, rep, "C17.R14")
     # R11: Manager.fail records the failure on the main channel before anything else can run (and possibly raise): the pending and future
     # connect() calls are failed first
     ff_ = tree.func(MGR, "Manager", "fail")
